@@ -10,6 +10,8 @@ CLAIMS = {
     # id: (level text, level_note, design_ref)
     "C20": ("Coq theorems C20_two_valued / C20_three_valued (exact enumeration: length 2^k / 3^k, NoDup, membership iff completion / refinement, first element) and the *_stream theorems (successive next() calls return exactly the collected list, then None for ever) about the Gallina model of both odometers, for all vectors of all lengths; the model is tied to datatypes/adf.rs by running both on all vectors up to length 5 (thorough 7) over {0,1,2,3,7} plus random long vectors, compared as sequences.",
             "Trusted: Coq kernel, extraction + OCaml driver, the correspondence harness; Vec/usize modelled as list/N. No axioms.", "4.C20"),
+    "C08": ("Coq theorems about the combinator-for-combinator Gallina transcription of lib/src/parser.rs: C08_accepts_grammar (every text of the documented grammar - any fact order, nesting, layout, keyword-like or quoted labels - is accepted and yields exactly the written statements and formulas), C08_accepts_only_grammar / C08_accepts_iff (nothing else is accepted: acceptance iff membership in the grammar), rejection corollaries (missing dot, trailing garbage, blank input) and fuel-independence of the formula parser; all for unbounded inputs. Tie: model and implementation run on rendered random documents and byte-level mutations of them and must agree on accept/reject, names, and every formula; an independent recogniser judges the implementation's answers. The CLI / web halves of the rejection claim are checked under C15 / C16.",
+            "Trusted: Coq kernel, extraction + driver, harness, nom 7.1 primitives behaving as transcribed (alphanumeric1 = ASCII letters/digits). No axioms.", "4.C08"),
 }
 
 NOT_YET = "check not built yet in this round (framework under construction; see DESIGN.md section 8 staging)"
